@@ -74,7 +74,9 @@ def hostile_modules(draw, pep701=True):
             lines.append('v%d = f"%s{%s%s}"' % (i, fliteral(draw(hostile_str(2))), expr, conv))
         elif k == 7:
             # format spec with literal text and a nested field
-            spec = fliteral(draw(hostile_str(3))).replace('\\', '') if not pep701 else fliteral(draw(hostile_str(3)))
+            # braces cannot be escaped inside a format spec ('{{' opens a nested field there), so keep them out of the literal text
+            raw = draw(hostile_str(3)).replace('{', '').replace('}', '')
+            spec = fliteral(raw).replace('\\', '') if not pep701 else fliteral(raw)
             lines.append('v%d = f"{name:%s{width}}"' % (i, spec))
         elif k == 8:
             # numeric payloads for the folder
